@@ -50,6 +50,9 @@ package ack
 //@   ensures err == nil ==> (forall x Iface :: #tab[x] <==> (old(#tab)[x] || x == k)) && #tabv[k] == asiface(msg) && (forall x Iface :: #tmo[x] <==> (old(#tmo)[x] || x == k))
 //@   ensures #cbCalls == old(#cbCalls)
 //@   ensures forall x Iface :: x != k ==> #tabv[x] == old(#tabv)[x]
+// C20: registering is one atomic put-if-missing: it never replaces an entry that is awaiting its outcome, whatever other
+// goroutines insert in the meantime (a lookup followed by an unconditional put would)
+//@   ensures [C20] #overwrites == old(#overwrites)
 
 //@ fun pkt_id(p packet.Packet) int32
 //@ func (Ackers).GetMessageId(a Ackers) (r int32)
